@@ -441,6 +441,53 @@ theorem mergeRight_total (s : SSt) (l : Nat) (hw : WF s) (ho : Owns s.st l)
     ⟨hw.ic, hw.mem, a, b⟩ ho (le_trans (nOwn_le s.st) hle)
   exact ⟨t1.trans (by rw [setUpOut_fo]), t2, t3, t4⟩
 
+/-! ### the number of owning blocks -/
+
+open Classical in
+/-- there are at most as many owning blocks as variables -/
+theorem nOwn_le_vars (st : St) : nOwn st ≤ st.vars.size := by
+  unfold nOwn
+  set L := (List.range st.blocks.size).filter fun b => (List.range st.vars.size).any fun v => blkOf st v == b with hL
+  have hLnd : L.Nodup := List.Nodup.filter _ List.nodup_range
+  have hLo : ∀ b ∈ L, Owns st b := fun b hb => (ownsB_iff st b).1 (List.mem_filter.1 hb).2
+  let g : Nat → Nat := fun b => if h : Owns st b then Classical.choose h else 0
+  have hg : ∀ b ∈ L, g b < st.vars.size ∧ blkOf st (g b) = b := by
+    intro b hb
+    have h := hLo b hb
+    simp only [g, dif_pos h]
+    exact Classical.choose_spec h
+  have hinj : ∀ a ∈ L, ∀ b ∈ L, g a = g b → a = b := by
+    intro a ha b hb e
+    rw [← (hg a ha).2, ← (hg b hb).2, e]
+  have hmnd : (L.map g).Nodup := List.Nodup.map_on hinj hLnd
+  have hsub : L.map g ⊆ List.range st.vars.size := by
+    intro x hx
+    obtain ⟨b, hb, rfl⟩ := List.mem_map.1 hx
+    exact List.mem_range.2 (hg b hb).1
+  have := (List.subperm_of_subset hmnd hsub).length_le
+  simpa using this
+
+
+/-- `mergeLeft` / `mergeRight` from ANY `WF` state (also inside `refine`, where `Blocks::split` has allocated
+    new blocks): the fuel `m + n + 2` covers the number of owning blocks, which is at most `n` -/
+theorem mergeLeft_total' (s : SSt) (r : Nat) (hw : WF s) (ho : Owns s.st r) :
+    (mergeLeft s r).hs.fuelOut = s.hs.fuelOut ∧ (mergeLeft s r).st.fuelOut = s.st.fuelOut ∧ WF (mergeLeft s r) := by
+  rw [mergeLeft_eq]
+  have hin0 : InOK s.st (stampL s.hs r) := inOK_of_eq hw.hin rfl
+  have hout0 : OutOK s.st (stampL s.hs r) := outOK_of_eq hw.hout rfl
+  obtain ⟨a, b⟩ := setUpIn_ok s.st (stampL s.hs r) r hw.ic hw.mem hin0 hout0
+  obtain ⟨t1, t2, _, t4⟩ := mergeLeftLoop_total (loopFuel s.st) { st := s.st, hs := setUpIn s.st (stampL s.hs r) r } r
+    ⟨hw.ic, hw.mem, a, b⟩ ho (le_trans (nOwn_le_vars s.st) (by unfold loopFuel; omega))
+  exact ⟨t1.trans (by rw [setUpIn_fo]; rfl), t2, t4⟩
+
+theorem mergeRight_total' (s : SSt) (l : Nat) (hw : WF s) (ho : Owns s.st l) :
+    (mergeRight s l).hs.fuelOut = s.hs.fuelOut ∧ (mergeRight s l).st.fuelOut = s.st.fuelOut ∧ WF (mergeRight s l) := by
+  rw [mergeRight_eq]
+  obtain ⟨a, b⟩ := setUpOut_ok s.st s.hs l hw.ic hw.mem hw.hin hw.hout
+  obtain ⟨t1, t2, _, t4⟩ := mergeRightLoop_total (loopFuel s.st) { st := s.st, hs := setUpOut s.st s.hs l } l
+    ⟨hw.ic, hw.mem, a, b⟩ ho (le_trans (nOwn_le_vars s.st) (by unfold loopFuel; omega))
+  exact ⟨t1.trans (by rw [setUpOut_fo]), t2, t4⟩
+
 /-! ### a feasible start is a fixed point of `satisfy` -/
 
 /-- every constraint holds as the solver evaluates it -/
